@@ -1849,11 +1849,11 @@ class Node:
         """
         if not self._started:
             raise RuntimeError("Cannot stop a node that has not been started")
-        if self._stopping:
-            raise RuntimeError("Node is already stopping")
-
-        self.logger.info("stopping node")
         with self._stop_lock:
+            # of several concurrent callers, one carries the shutdown out
+            if self._stopping:
+                raise RuntimeError("Node is already stopping")
+            self.logger.info("stopping node")
             self._stopping = True
 
         if force:
